@@ -145,7 +145,9 @@ class Segment:
     def __init__(self, job):
         self.job = job
         self.scenario = job.get("scenario", "")
-        self.disk = simdisk.Disk(job["disk_root"], job.get("disk_cfg", {}))
+        dcfg = dict(job.get("disk_cfg", {}))
+        dcfg["clock_ticks"] = job.get("clock_ticks", 0)
+        self.disk = simdisk.Disk(job["disk_root"], dcfg)
         self.files = job.get("files", {})
         self.models = {}
         self.objects = {}     # reusable writer / operation objects
@@ -158,7 +160,6 @@ class Segment:
         self.cur = None
         self.bridge = None
         self.crashed = False
-        self.clock_ticks = job.get("clock_ticks", 0)
         self.held = []            # (label, result object, canonical form when it was returned)
         self.lib_ops = 0          # library operations executed so far in this interpreter
         self.last_lib_op = None
@@ -197,19 +198,16 @@ class Segment:
             return None
 
     def stamp(self, rel):
-        """F-clock: the modification time a file gets is the simulator's, not the wall clock's.
-        'frozen' = coarse timestamp granularity / a restored backup (every file has the same
-        mtime); 'backwards' = the clock stepped back between two writes."""
-        mode = self.disk.cfg.get("mtime_mode", "real")
-        if mode == "real" or rel is None:
+        """Files put on the disk by the simulator itself (peer documents, stale content,
+        corruption) get their modification time from the simulated clock as well."""
+        if rel is None:
             return
         full = self.abspath(rel)
-        if not os.path.exists(full):
-            return
-        self.clock_ticks += 1
-        when = 1700000000 if mode == "frozen" else 1700000000 - 10 * self.clock_ticks
-        os.utime(full, (when, when))
-        self.probe("fault_fired.mtime_" + mode)
+        if os.path.exists(full):
+            self.disk.stamp_path(full)
+            mode = self.disk.cfg.get("mtime_mode", "mono")
+            if mode != "mono":
+                self.probe("fault_fired.mtime_" + mode)
 
     def disk_state(self):
         """{relative path: (size, sha)} of every file on the simulated disk."""
@@ -217,6 +215,8 @@ class Segment:
         root = self.disk.root
         for base, dirs, files in os.walk(root):
             dirs.sort()
+            if base == root and ".tmp" in dirs:
+                dirs.remove(".tmp")      # the run's tempfile.gettempdir()
             for name in sorted(files):
                 full = os.path.join(base, name)
                 try:
@@ -259,7 +259,7 @@ class Segment:
             if self.job.get("frame_check", True):
                 self.frame_check(op)
         return {"obs": self.obs, "fails": self.fails, "files": self.files,
-                "clock_ticks": self.clock_ticks,
+                "clock_ticks": self.disk.ticks,
                 "probes": self.probes, "stats": self.disk.stats, "crashed": self.crashed}
 
     def frame_check(self, op):
@@ -391,6 +391,7 @@ class Segment:
             tags.append("hist.stale_target")
             self.probe("stale_target_prepared")
             self.files[rel] = {"fmt": None, "state": "stale", "ref": None}
+            self.stamp(rel)
         before_bytes = None if rel is None else self.read_bytes(rel)
         disk_before = self.disk_state()
         key = "W:%s:%s:%s" % (fmt, op["m"], rel)
@@ -472,7 +473,6 @@ class Segment:
                           "%r was %s while serialising to %r" % (
                               other, "created" if other not in disk_before else
                               "removed" if other not in disk_after else "modified", rel), tags)
-        self.stamp(rel)
         after_bytes = None if rel is None else self.read_bytes(rel)
         hard = [k for k in fired if k in ("open_err", "write_err")]
         if op.get("nodir"):
@@ -775,10 +775,12 @@ class Segment:
                     try:
                         data.decode("utf-8")
                     except UnicodeDecodeError:
-                        self.fail("C12", "reader.invalid_utf8_accepted", site,
-                                  "the file is not valid UTF-8 (damaged inside a multi-byte "
-                                  "character) but it was read, i.e. not as UTF-8, and a model "
-                                  "was returned", tags)
+                        for prop in (["C12", "C04"] if fmt == "uvl" else ["C12"]):
+                            # (for UVL it is also a document that is not UVL at all: C04)
+                            self.fail(prop, "reader.invalid_utf8_accepted", site,
+                                      "the file is not valid UTF-8 (damaged inside a multi-byte "
+                                      "character) but it was read, i.e. not as UTF-8, and a "
+                                      "model was returned", tags)
                 if fentry.get("must_raise"):
                     self.fail(negprop, fmt + ".torn_inside_token_accepted", site,
                               "the writer was killed inside a quoted token, an open bracket or "
@@ -1071,9 +1073,10 @@ class Segment:
             except Exception as err:  # noqa: BLE001
                 now = "raised " + type(err).__name__
             if now != was:
-                self.fail("C19", "op.earlier_result_changed", site,
-                          "the result returned earlier by %s changed after this execution" %
-                          label, tags + ["hist.held_result"])
+                for prop in (["C19", "C17"] if label.startswith("FMMetrics") else ["C19"]):
+                    self.fail(prop, "op.earlier_result_changed", site,
+                              "the result returned earlier by %s changed after this execution" %
+                              label, tags + ["hist.held_result"])
                 self.held = [h for h in self.held if h[1] is not obj]
                 return
         if self.held:
